@@ -1,8 +1,10 @@
 package main
 
 import (
+	"bytes"
 	"runtime"
 	"strconv"
+	"strings"
 	"sync"
 	"sync/atomic"
 	"time"
@@ -16,6 +18,7 @@ type actor struct {
 	name   string
 	ev     chan string
 	resume chan struct{}
+	goid   atomic.Int64
 }
 
 // agate forces schedules through the library's `verif` yield points, per
@@ -77,6 +80,7 @@ func newActor(name string) *actor {
 // bind must be called by the goroutine itself.
 func (g *agate) bind(a *actor) {
 	id := goid()
+	a.goid.Store(id)
 	g.mu.Lock()
 	g.byGo[id] = a
 	g.mu.Unlock()
@@ -101,6 +105,7 @@ func (g *agate) hook(point string) {
 		for k, ad := range g.adopt {
 			if ad.point == point {
 				a = ad.a
+				a.goid.Store(id)
 				g.byGo[id] = a
 				g.adopt = append(g.adopt[:k], g.adopt[k+1:]...)
 				break
@@ -168,4 +173,36 @@ func (g *agate) freeAll() {
 		close(g.free)
 	}
 	g.mu.Unlock()
+}
+
+// waitBlocked waits until the goroutine of a is blocked in one of the given
+// runtime wait states ("chan receive", "select", ...): after that a
+// non-blocking send to the channel it waits on is certain to find it.
+func waitBlocked(a *actor, d time.Duration, states ...string) bool {
+	id := a.goid.Load()
+	if id == 0 {
+		return false
+	}
+	needle := []byte("goroutine " + strconv.FormatInt(id, 10) + " [")
+	deadline := time.Now().Add(d)
+	buf := make([]byte, 1<<20)
+	for {
+		n := runtime.Stack(buf, true)
+		b := buf[:n]
+		if i := bytes.Index(b, needle); i >= 0 {
+			rest := b[i+len(needle):]
+			if j := bytes.IndexByte(rest, ']'); j >= 0 {
+				st := string(rest[:j])
+				for _, w := range states {
+					if strings.HasPrefix(st, w) {
+						return true
+					}
+				}
+			}
+		}
+		if time.Now().After(deadline) {
+			return false
+		}
+		time.Sleep(100 * time.Microsecond)
+	}
 }
